@@ -215,6 +215,25 @@ func vAllocCheck() {
 // vRaceMode: native replay of a footprint counterexample under the race detector.
 func vRaceMode() bool { return os.Getenv("VERIF_RACE") != "" }
 
+// vStackDepth: frames of the library under test (not the harness, not the
+// standard library) on the calling goroutine's stack, inlined calls included.
+func vStackDepth() int {
+	pcs := make([]uintptr, 512)
+	n := runtime.Callers(1, pcs)
+	frames := runtime.CallersFrames(pcs[:n])
+	depth := 0
+	for {
+		f, more := frames.Next()
+		if strings.HasPrefix(f.Function, "github.com/jeroenrinzema/psql-wire") && !strings.Contains(f.File, "zz_verif_") {
+			depth++
+		}
+		if !more {
+			break
+		}
+	}
+	return depth
+}
+
 // vPause lets goroutines started just before run (native replays only; it
 // creates no happens-before edge). Symbolically a no-op.
 func vPause() { time.Sleep(30 * time.Millisecond) }
